@@ -400,6 +400,23 @@ def ob_leader_sends_to_root_only(run, oid):
     return o
 
 
+def ob_constructible(run, oid):
+    """'for every validator count and stake distribution, both Rotor constructors': nothing is disseminated by a node whose Rotor / Turbine
+    cannot be constructed. The panic sites reachable from the disseminators' constructors (and from the samplers they build) are the
+    reviewed ones of C17 (same table, same reasons); an unreviewed one is reported here under C16's own id."""
+    from engine import panics
+    from . import C17 as _C17
+    from . import panic_review as _PR
+    prog = run.program("lib")
+    o = run.ob(oid, "both Rotor constructors and Turbine's can be run for every validator set: every panic site reachable from them is reviewed",
+               "a constructor that panics for an ordinary validator set (e.g. five equal stakes) leaves the node without a disseminator: no shred it leads or relays reaches anyone", floor=10)
+    roots = sorted(d for d, b in prog.bodies.items() if not b.is_closure and (d.startswith(ROTOR + "::new") or d.startswith(TURB + "::new") or d == TURB + "::with_fanout"))
+    if len(roots) < 3:
+        o.missing("Rotor::new / Rotor::new_fa1 / Turbine::new")
+    nb, ns = panics.review(o, prog, roots, _C17.REVIEWED, fshort, auto=_PR.auto)
+    run.notes.append("%s: %d bodies reachable from %d disseminator constructors, %d panic sites" % (oid, nb, len(roots), ns))
+
+
 def check(run):
     ob_batched_send(run, "O16.8")
     ob_leader_sends_to_root_only(run, "O16.9")
@@ -415,3 +432,4 @@ def check(run):
     ob_cache(run, "O16.3")
     ob_relay_set(run, "O16.4")
     ob_forward(run, "O16.5")
+    ob_constructible(run, "O16.10")
